@@ -70,6 +70,8 @@ type Setup struct {
 	Ext any
 	// OnConnected is called from the broker's OnConnected hook (broker task context).
 	OnConnected func(w *World, node int, client server.Client)
+	// EditHooks may add hooks to the recording hooks of node n before they are installed.
+	EditHooks func(w *World, n int, h *server.Hooks)
 }
 
 // World is one simulated run.
@@ -327,7 +329,11 @@ func (w *World) StartNode(n int) {
 			opts = append(opts, server.WithWebsocketServer(&server.WsServer{Server: &http.Server{Addr: addr}, Path: "/"}))
 		}
 		if w.Setup == nil || !w.Setup.NoBaseHooks {
-			opts = append(opts, server.WithHook(w.baseHooks(n)))
+			hk := w.baseHooks(n)
+			if w.Setup != nil && w.Setup.EditHooks != nil {
+				w.Setup.EditHooks(w, n, &hk)
+			}
+			opts = append(opts, server.WithHook(hk))
 		}
 		if w.Setup != nil && w.Setup.Options != nil {
 			opts = append(opts, w.Setup.Options(w, n)...)
